@@ -5,8 +5,9 @@
    It passes when the model of the repaired hub (fx = true) produces the same. *)
 From Relay Require Import Base.Prelude Base.AList Model.Agg.
 
-Definition cs (i t : N) : client := (i, TStream t).
-Definition cf (i f : N) : client := (i, TFeed f).
+(* a client as the harness emits it: number, the bytes of its topic name, the number of that name in
+   the harness's table of streams or of feeds; whether it is a stream is the model's decision *)
+Definition cl (i : N) (name : list N) (n : N) : client := (i, topic_of_name (str name) n).
 
 Fixpoint dedup (l : list N) : list N :=
   match l with
@@ -25,19 +26,19 @@ Definition listing_ok (s : st) (l : list (N * list N)) : bool :=
 
 Definition is_bcast (o : op) : bool := match o with Bcast _ => true | _ => false end.
 
-(* walk the history with the model; ls has one entry per executed operation *)
-Fixpoint listings_ok (s : st) (ops : list op) (ls : list (list (N * list N))) : bool :=
+(* walk the history with the model; ls has one entry per executed operation: the table when it was read *)
+Fixpoint listings_ok (s : st) (ops : list op) (ls : list (option (list (N * list N)))) : bool :=
   match ops, ls with
   | o :: r, l :: lr =>
       match step true s o with
-      | Ok s1 _ => (is_bcast o || listing_ok s1 l) && listings_ok s1 r lr
+      | Ok s1 _ => match l with Some l => listing_ok s1 l | None => true end && listings_ok s1 r lr
       | Panic => false
       end
   | _, [] => true
   | [], _ :: _ => false
   end.
 
-Definition case := (list op * list (list N) * list (list (N * list N)) * bool)%type.
+Definition case := (list op * list (list N) * list (option (list (N * list N))) * bool)%type.
 
 Definition case_ok (c : case) : bool :=
   let '(ops, obs, ls, died) := c in
